@@ -135,8 +135,9 @@ CHECKS = {
         'real': REAL_COMMON + ['cloudpickle round trip of the captured state (the only thing that survives a crash)'],
         'stub': STUB_COMMON,
         'assumptions': ASSUME_COMMON + [
-            're-batching operators and sinks are not generated (rows buffered inside a re-batcher are not part '
-            'of the documented state)',
+            'sinks are not generated; a re-batching operator only where its batches are whole multiples of the '
+            'one-row source elements and num_threads is 0, i.e. where it holds nothing between two batches (rows '
+            'buffered inside a re-batcher are not part of the documented state)',
             'the reference is the uninterrupted sequential run of the same pipeline over the same source'],
         'probes': ['probe:second_generation_restore', 'probe:checkpoint_of_threaded_pipeline', 'probe:nested_shards'],
     },
